@@ -16,3 +16,25 @@ pub fn prefilter_off() -> bool {
 }
 
 pub use super::set_digest::verif_hooks as digest;
+pub use super::buffer::verif_hooks as buffer;
+pub use super::ot_shaper_arabic::verif_hooks as arabic;
+pub use super::ot_shaper_hangul::verif_hooks as hangul;
+pub use super::ot_shaper_thai::verif_hooks as thai;
+pub use super::tag::verif_hooks as tag;
+pub use super::common::verif_hooks as common;
+pub use super::ot_map::verif_hooks as map;
+pub use super::unicode::verif_hooks as unicode;
+pub use super::ot_shape_normalize::verif_hooks as normalize;
+pub use super::ot_layout_gpos_table::verif_hooks as gpos;
+pub use super::kerning::verif_hooks as kerning;
+pub use super::aat_layout_morx_table::verif_hooks as morx;
+pub use super::aat_map::verif_hooks as aat_map;
+pub use super::ot_shape::verif_hooks as ot_shape;
+pub use super::ot_layout_gsubgpos::verif_hooks as gsubgpos;
+pub use super::ot_shape_plan::verif_hooks as plan;
+pub use super::ot_layout::verif_hooks as layout;
+pub use super::face::verif_hooks as face;
+pub use super::aat_layout_kerx_table::verif_hooks as kerx;
+pub use super::ot_shape_fallback::verif_hooks as fallback;
+pub use super::ot_shaper::verif_hooks as shaper;
+pub use super::ot_layout_common::verif_hooks as layout_common;
